@@ -25,7 +25,7 @@ CONSTANTS Kinds,       \* alphabet of doctest kinds for this run
           MaxHist,     \* bound on the length of a history (0: front-end mode only)
           Deviation
 
-AllKinds == {"failcompile", "faildirective", "needell", "pass", "failout", "failexc", "skipall", "skippart", "expexc", "comment", "disabled", "disabledfail",
+AllKinds == {"warns", "failcompile", "faildirective", "needell", "pass", "failout", "failexc", "skipall", "skippart", "expexc", "comment", "disabled", "disabledfail",
              "bind", "probe", "rebind", "readg", "leaveskip", "leavereq", "reportstyle", "trail", "swapout", "filters"}
 
 Disabled(k) == k \in {"disabled", "disabledfail"}
@@ -57,9 +57,10 @@ VARIABLES
   leaked,     \* names bound by earlier doctests that a later doctest can see
   modG,       \* value of the module's global G (1 initially)
   defSkip, defReq,  \* pollution of the default directive state
-  stale       \* set of doctest indices whose object still holds unmatched output
+  stale,      \* set of doctest indices whose object still holds unmatched output
+  filtErr     \* an earlier doctest left the warning filters at "error"
 
-vars == <<mod, opt, mode, cmd, front, pos, queue, verdict, nP, nF, nS, nT, failedSeq, exitCode, listed, hist, env, leaked, modG, defSkip, defReq, stale>>
+vars == <<mod, opt, mode, cmd, front, pos, queue, verdict, nP, nF, nS, nT, failedSeq, exitCode, listed, hist, env, leaked, modG, defSkip, defReq, stale, filtErr>>
 
 Solo(k, e) == Solo3(k, e, opt)
 NothingRuns(k) == NothingRuns3(k, opt)
@@ -67,12 +68,12 @@ NothingRuns(k) == NothingRuns3(k, opt)
 Init ==
   /\ mod = <<>> /\ opt \in Opts /\ mode = "choose" /\ cmd = [c |-> "none", target |-> 0] /\ front = "none" /\ pos = 0 /\ queue = <<>>
   /\ verdict = <<>> /\ nP = 0 /\ nF = 0 /\ nS = 0 /\ nT = 0 /\ failedSeq = <<>> /\ exitCode = -1 /\ listed = {}
-  /\ hist = <<>> /\ env = 1 /\ leaked = {} /\ modG = 1 /\ defSkip = FALSE /\ defReq = FALSE /\ stale = {}
+  /\ hist = <<>> /\ env = 1 /\ leaked = {} /\ modG = 1 /\ defSkip = FALSE /\ defReq = FALSE /\ stale = {} /\ filtErr = FALSE
 
 ChooseDoc ==
   /\ mode = "choose" /\ Len(mod) < MaxDocs
   /\ \E k \in Kinds : mod' = Append(mod, k)
-  /\ UNCHANGED <<opt, mode, cmd, front, pos, queue, verdict, nP, nF, nS, nT, failedSeq, exitCode, listed, hist, env, leaked, modG, defSkip, defReq, stale>>
+  /\ UNCHANGED <<opt, mode, cmd, front, pos, queue, verdict, nP, nF, nS, nT, failedSeq, exitCode, listed, hist, env, leaked, modG, defSkip, defReq, stale, filtErr>>
 
 StartFront ==
   /\ mode = "choose" /\ Len(mod) >= MinDocs /\ MaxHist = 0
@@ -83,7 +84,7 @@ StartFront ==
            ELSE cmd' = [c |-> c, target |-> 0]
         /\ (f = "pytest" => c = "all")
   /\ mode' = "front" /\ pos' = 0
-  /\ UNCHANGED <<mod, opt, queue, verdict, nP, nF, nS, nT, failedSeq, exitCode, listed, hist, env, leaked, modG, defSkip, defReq, stale>>
+  /\ UNCHANGED <<mod, opt, queue, verdict, nP, nF, nS, nT, failedSeq, exitCode, listed, hist, env, leaked, modG, defSkip, defReq, stale, filtErr>>
 
 \* ---- native front end (runner.py 283-298, 622-711; __main__.py 172-176)
 Gather ==
@@ -92,12 +93,12 @@ Gather ==
               THEN SelectSeq([i \in 1..Len(mod) |-> i], LAMBDA i : ~Disabled(mod[i]) \/ "NoDisabledFilter" \in Deviation)
               ELSE <<cmd.target>>                      \* a named doctest runs even if it is force-disabled
   /\ pos' = 1 /\ nT' = Len(queue')
-  /\ UNCHANGED <<mod, opt, mode, cmd, front, verdict, nP, nF, nS, failedSeq, exitCode, listed, hist, env, leaked, modG, defSkip, defReq, stale>>
+  /\ UNCHANGED <<mod, opt, mode, cmd, front, verdict, nP, nF, nS, failedSeq, exitCode, listed, hist, env, leaked, modG, defSkip, defReq, stale, filtErr>>
 
 List ==
   /\ mode = "front" /\ front = "native" /\ cmd.c = "list"
   /\ listed' = 1..Len(mod) /\ exitCode' = 0 /\ mode' = "done"
-  /\ UNCHANGED <<mod, opt, cmd, front, pos, queue, verdict, nP, nF, nS, nT, failedSeq, hist, env, leaked, modG, defSkip, defReq, stale>>
+  /\ UNCHANGED <<mod, opt, cmd, front, pos, queue, verdict, nP, nF, nS, nT, failedSeq, hist, env, leaked, modG, defSkip, defReq, stale, filtErr>>
 
 RunNext ==
   /\ mode = "front" /\ front = "native" /\ pos >= 1 /\ pos <= Len(queue)
@@ -109,13 +110,13 @@ RunNext ==
         /\ nS' = nS + (IF o = "skipped" THEN 1 ELSE 0)
         /\ failedSeq' = IF o = "failed" /\ "FailedNotRecorded" \notin Deviation THEN Append(failedSeq, i) ELSE failedSeq
   /\ pos' = pos + 1
-  /\ UNCHANGED <<mod, opt, mode, cmd, front, queue, nT, exitCode, listed, hist, env, leaked, modG, defSkip, defReq, stale>>
+  /\ UNCHANGED <<mod, opt, mode, cmd, front, queue, nT, exitCode, listed, hist, env, leaked, modG, defSkip, defReq, stale, filtErr>>
 
 NativeExit ==
   /\ mode = "front" /\ front = "native" /\ pos > Len(queue) /\ pos >= 1
   /\ exitCode' = IF nF > (IF "ExitOnlyIfTwoFail" \in Deviation THEN 1 ELSE 0) THEN 1 ELSE 0
   /\ mode' = "done"
-  /\ UNCHANGED <<mod, opt, cmd, front, pos, queue, verdict, nP, nF, nS, nT, failedSeq, listed, hist, env, leaked, modG, defSkip, defReq, stale>>
+  /\ UNCHANGED <<mod, opt, cmd, front, pos, queue, verdict, nP, nF, nS, nT, failedSeq, listed, hist, env, leaked, modG, defSkip, defReq, stale, filtErr>>
 
 \* ---- pytest front end (plugin.py 260 runtest): one item per collected doctest
 PytestItem ==
@@ -129,25 +130,25 @@ PytestItem ==
      IN /\ verdict' = verdict @@ (i :> o)
         /\ nF' = nF + (IF o = "failed" THEN 1 ELSE 0)
   /\ pos' = pos + 1
-  /\ UNCHANGED <<mod, opt, mode, cmd, front, queue, nP, nS, nT, failedSeq, exitCode, listed, hist, env, leaked, modG, defSkip, defReq, stale>>
+  /\ UNCHANGED <<mod, opt, mode, cmd, front, queue, nP, nS, nT, failedSeq, exitCode, listed, hist, env, leaked, modG, defSkip, defReq, stale, filtErr>>
 PytestExit ==
   /\ mode = "front" /\ front = "pytest" /\ pos = Len(mod)
   /\ exitCode' = IF nF > 0 THEN 1 ELSE IF Len(mod) = 0 THEN 5 ELSE 0       \* 5: no tests collected
   /\ mode' = "done"
-  /\ UNCHANGED <<mod, opt, cmd, front, pos, queue, verdict, nP, nF, nS, nT, failedSeq, listed, hist, env, leaked, modG, defSkip, defReq, stale>>
+  /\ UNCHANGED <<mod, opt, cmd, front, pos, queue, verdict, nP, nF, nS, nT, failedSeq, listed, hist, env, leaked, modG, defSkip, defReq, stale, filtErr>>
 
 \* ---- histories (C11): any collected doctest may be run next, again and again; the environment may change
 StartHist ==
   /\ mode = "choose" /\ Len(mod) >= MinDocs /\ MaxHist > 0 /\ Len(mod) > 0
   /\ mode' = "hist"
-  /\ UNCHANGED <<mod, opt, cmd, front, pos, queue, verdict, nP, nF, nS, nT, failedSeq, exitCode, listed, hist, env, leaked, modG, defSkip, defReq, stale>>
+  /\ UNCHANGED <<mod, opt, cmd, front, pos, queue, verdict, nP, nF, nS, nT, failedSeq, exitCode, listed, hist, env, leaked, modG, defSkip, defReq, stale, filtErr>>
 
 SetEnv ==
   /\ mode = "hist" /\ Len(hist) < MaxHist /\ \E i \in 1..Len(mod) : mod[i] = "trail"
   /\ Len(hist) > 0 /\ hist[Len(hist)][1] # 0                      \* no two environment changes in a row
   /\ env' = 1 - env
   /\ hist' = Append(hist, <<0, env', "env">>)
-  /\ UNCHANGED <<mod, opt, mode, cmd, front, pos, queue, verdict, nP, nF, nS, nT, failedSeq, exitCode, listed, leaked, modG, defSkip, defReq, stale>>
+  /\ UNCHANGED <<mod, opt, mode, cmd, front, pos, queue, verdict, nP, nF, nS, nT, failedSeq, exitCode, listed, leaked, modG, defSkip, defReq, stale, filtErr>>
 
 \* DocTest.run on the collected object i with the process as it is now
 HistRun ==
@@ -163,12 +164,14 @@ HistRun ==
                 ELSE IF k = "probe" /\ "N" \in leaked THEN "failed"
                 ELSE IF k = "readg" /\ modG # 1 THEN "failed"
                 ELSE IF k = "trail" /\ env = 0 /\ staleNow THEN "passed"
+                ELSE IF k = "warns" /\ filtErr THEN "failed"                 \* its warning became an exception
                 ELSE Solo(k, env)
        IN /\ hist' = Append(hist, <<i, env, o>>)
           /\ leaked' = IF k = "bind" /\ (aliased \/ "NoNamespaceIsolation" \in Deviation) /\ ~skippedByDefault THEN leaked \cup {"N"} ELSE leaked
           /\ modG' = IF k = "rebind" /\ aliased /\ ~skippedByDefault THEN 5 ELSE modG
           /\ defSkip' = IF k = "leaveskip" /\ "SharedRunstate" \in Deviation THEN TRUE ELSE defSkip
           /\ defReq' = IF k = "leavereq" /\ "ShallowDefaults" \in Deviation THEN TRUE ELSE defReq
+          /\ filtErr' = (filtErr \/ (k = "filters" /\ "NoFilterRestore" \in Deviation /\ ~skippedByDefault))
           /\ stale' = IF k = "trail" /\ env = 1 /\ ~skippedByDefault THEN stale \cup {i}
                       ELSE IF k = "trail" THEN stale \ {i} ELSE stale
   /\ UNCHANGED <<mod, opt, mode, cmd, front, pos, queue, verdict, nP, nF, nS, nT, failedSeq, exitCode, listed, env>>
@@ -179,10 +182,10 @@ EmitIt == IF "Emit" \in Deviation
 EndHist ==
   /\ mode = "hist" /\ Len(hist) > 0 /\ hist[Len(hist)][1] # 0
   /\ mode' = "done"
-  /\ UNCHANGED <<mod, opt, cmd, front, pos, queue, verdict, nP, nF, nS, nT, failedSeq, exitCode, listed, hist, env, leaked, modG, defSkip, defReq, stale>>
+  /\ UNCHANGED <<mod, opt, cmd, front, pos, queue, verdict, nP, nF, nS, nT, failedSeq, exitCode, listed, hist, env, leaked, modG, defSkip, defReq, stale, filtErr>>
 
 Emitted == mode = "done" /\ mode' = "emitted" /\ EmitIt
-           /\ UNCHANGED <<mod, opt, cmd, front, pos, queue, verdict, nP, nF, nS, nT, failedSeq, exitCode, listed, hist, env, leaked, modG, defSkip, defReq, stale>>
+           /\ UNCHANGED <<mod, opt, cmd, front, pos, queue, verdict, nP, nF, nS, nT, failedSeq, exitCode, listed, hist, env, leaked, modG, defSkip, defReq, stale, filtErr>>
 
 Next == ChooseDoc \/ StartFront \/ Gather \/ List \/ RunNext \/ NativeExit \/ PytestItem \/ PytestExit
         \/ StartHist \/ SetEnv \/ HistRun \/ EndHist \/ Emitted
@@ -215,6 +218,6 @@ PytestVerdicts == (Done /\ front = "pytest") =>
   /\ \A i \in 1..Len(mod) : verdict[i] = (IF Disabled(mod[i]) THEN "skipped" ELSE Solo(mod[i], env))
 \* C11: every run of a history has the outcome the doctest has alone
 Isolation == \A x \in 1..Len(hist) : hist[x][1] # 0 => hist[x][3] = Solo(mod[hist[x][1]], hist[x][2])
-ModuleGlobalsKept == modG = 1
+ModuleGlobalsKept == modG = 1 /\ ~filtErr
 DefaultsKept == ~defSkip /\ ~defReq
 =============================================================================
